@@ -62,6 +62,11 @@ type c07In struct {
 	Pieces      int  `json:"pieces"`
 	PieceMS     int  `json:"pieceMS"`
 
+	// Expect: the client announces "Expect: 100-continue" (and sends its body right away)
+	Expect bool `json:"expect"`
+	// RespCT: the backend's Content-Type ("" = application/octet-stream, "none" = no such header)
+	RespCT string `json:"respCT"`
+
 	// RespFill > 0: the response body is RespFill bytes 'z' (pool histories: > 1 MiB)
 	RespFill int `json:"respFill"`
 
@@ -189,7 +194,14 @@ func c07Bodies(in *c07In) (reqBody, respBody []byte) {
 func c07Script(in *c07In) []byte {
 	_, respBody := c07Bodies(in)
 	var raw bytes.Buffer
-	fmt.Fprintf(&raw, "HTTP/1.1 %d Scripted\r\nContent-Type: application/octet-stream\r\n", in.RespStatus)
+	fmt.Fprintf(&raw, "HTTP/1.1 %d Scripted\r\n", in.RespStatus)
+	switch in.RespCT {
+	case "":
+		raw.WriteString("Content-Type: application/octet-stream\r\n")
+	case "none":
+	default:
+		fmt.Fprintf(&raw, "Content-Type: %s\r\n", in.RespCT)
+	}
 	switch in.RespEnc {
 	case "cl":
 		fmt.Fprintf(&raw, "Content-Length: %d\r\n\r\n", in.RespDecl)
@@ -234,6 +246,9 @@ func c07Serve(fr *c07Front, be *c07Backend, in *c07In) (obs c07Obs) {
 	}
 	if in.MirrorHit {
 		req.WriteString("X-Mirror: 1\r\n")
+	}
+	if in.Expect {
+		req.WriteString("Expect: 100-continue\r\n")
 	}
 	half := false
 	switch in.ReqEnc {
@@ -517,6 +532,14 @@ func c07Gen(r *vfRand, adv bool) (in c07In) {
 			// a streamed, compressed, truncated body: what has been flushed is unspecified
 			in.Zip = false
 		}
+	}
+	// neither the client's Expect nor the backend's Content-Type has any bearing on the limits
+	if in.ReqEnc != "none" && (r.Chance(1, 4) || adv) {
+		in.Expect = true
+	}
+	if r.Chance(1, 3) || adv {
+		in.RespCT = r.PickStr("text/event-stream", "text/event-stream; charset=utf-8", "application/grpc", "multipart/form-data; boundary=xyz",
+			"text/plain", "none", "Text/Event-Stream", "application/json")
 	}
 	if r.Chance(1, 5) {
 		in.Mirror, in.MirrorHit = true, r.Chance(2, 3)
